@@ -391,9 +391,12 @@ def run_check(prop, tier, seed):
         dcases = [(s, l) for (s, l, k) in streams if k == dkey]
         if not dcases: continue
         lines = [l for _, l in dcases]
+        mprop = prop
         if hasattr(prop, "model_for"):            # cases borrowed from another property use that property's model runner
-            model_bin = build_model(prop.model_for(dkey))
-        mo = None if getattr(prop, "TWO_STAGE", False) else run_lines(model_bin, lines)
+            mprop = prop.model_for(dkey)
+            model_bin = build_model(mprop)
+        two_stage = getattr(mprop, "TWO_STAGE", False)
+        mo = None if two_stage else run_lines(model_bin, lines)
         built = build_drivers_parallel(specs)
         for spec_, (path, blog) in zip(specs, built):
             src, flavour = spec_[0], spec_[1]
@@ -404,7 +407,7 @@ def run_check(prop, tier, seed):
                 continue
             impl = run_lines(path, lines)
             before = len(res.unknown)
-            if getattr(prop, "TWO_STAGE", False):
+            if two_stage:
                 # the model judges the implementation's own observation of the lazy view:
                 # stage 2 feeds "<case> R:<impl output, blanks as '_'>" to the model runner
                 mo = run_lines(model_bin, [l + " R:" + I.replace(" ", "_") for l, I in zip(lines, impl)])
